@@ -13,8 +13,8 @@ from harness.core import cbool, clist, copt, cz, czlist
 
 ID = "C19"
 MODEL_TARGETS = ["C19/Cases.vo"]
-PROOF_TARGETS = ["C19/Store.vo", "C19/Proofs.vo", "C19/Grid.vo"]
-OBLIGATION_FILES = []
+PROOF_TARGETS = ["C19/Store.vo", "C19/Proofs.vo", "C19/Grid.vo", "C19/Gen.vo", "C19/Bridge.vo"]
+OBLIGATION_FILES = ["C19/Bridge.v"]
 PROPS_FILE = "C19/Props.v"
 SHARD = 70
 PER_CASE_TIMEOUT = 120
@@ -56,13 +56,23 @@ MODELLED = [
     "the property's observation points and not modelled",
     "float-valued predictions: the model stores integers (the doubles predict integer-valued "
     "floats for regression); exact float read-back from CSV is checked separately (kind "
-    "'floatcsv', oracle only)",
+    "'floatcsv', oracle only: the text to_csv stores must parse - correctly rounded, Python float() - "
+    "to the double handed to save_predictions, and load_predictions must return that double bit "
+    "for bit)",
+    "a record's numpy dtype is not part of the model: the CSV store keeps decimal text, so a "
+    "float32 prediction comes back as the float64 of its shortest decimal repr and a numeric-looking "
+    "string label as an integer (see notes/C19.md, observations)",
 ]
 NOT_RUNNABLE = [
     "UEADataset (.ts files on disk) is not exercised: datasets are RAMDataset objects; "
     "PresplitFilesCV is driven through a DataFrame whose index carries the 'train'/'test' labels, "
     "which is exactly what UEADataset.load produces",
 ]
+
+def translate(repo):
+    from translator import orch_c19
+    return orch_c19.translate(repo)
+
 
 ITEMS = ("train", "test", "fit")         # ITrain, ITest, IFit
 FLAGS = ("ow_pred", "on_train", "save_fit", "ow_fit")
@@ -83,6 +93,14 @@ def _dbl_pred(reg, p, s, x):
 
 
 CALLS = {"fit": 0, "predict": 0, "fail": None, "log": []}
+
+
+def _fl(v, sc):
+    """kind 'floatcsv': the float an integer v stands for under sc = [divisor, power of two]:
+    v / divisor * 2**power (fractional mantissas over the whole exponent range, down to
+    subnormals and up to the largest doubles)."""
+    import math
+    return math.ldexp(float(v) / float(sc[0]), int(sc[1]))
 
 
 class _Boom(RuntimeError):
@@ -121,7 +139,7 @@ def _make_doubles():
         reg = self._reg
         out = [_dbl_pred(reg, self.p, self.state_, x) for x in xs]
         if CALLS.get("scale"):                       # kind 'floatcsv': genuinely fractional floats
-            return np.array([v / float(CALLS["scale"]) for v in out], dtype=float)
+            return np.array([_fl(v, CALLS["scale"]) for v in out], dtype=float)
         return np.array(out, dtype=float if reg else int)
 
     def init(self, p=1):
@@ -315,9 +333,15 @@ def gen_cases(rng, tier):
             runs.append(_run(True, fail, sel=sel, **fl))
         add("regrid", "hdd", g, runs)
     # 6. float-valued predictions written to / read back from CSV (oracle only)
-    for i in range(6 if not thorough else 40):
-        g = _grid(rng, 1, 1, ("kfold", 2), task="tsr")
-        g["scale"] = 7 if i % 2 == 0 else rng.choice([3, 49, 1000003])
+    #    y_pred = v / divisor * 2**power and y_true likewise: fractional mantissas (about 1/3 of
+    #    them are not read back exactly by a non-round-trip parser) at ordinary, tiny (subnormal)
+    #    and huge exponents; to_csv writes the shortest repr, which identifies the double
+    for i in range(10 if not thorough else 60):
+        g = _grid(rng, 1, 1, ("kfold", 2), task="tsr", n_lo=6, n_hi=9)
+        g["scale"] = [7 if i % 2 == 0 else rng.choice([3, 49, 1000003, 10, 1]),
+                      rng.choice([0, 0, 0, -3, 40, -40, 1000, -1000, -1070])]
+        if i % 3 != 2:
+            g["datasets"][0]["yscale"] = [rng.choice([7, 3, 10, 1000003]), rng.choice([0, 0, -5, 60, -1060])]
         add("floatcsv", "hdd", g, [_run(True, None, on_train=True)])
     return cases
 
@@ -335,7 +359,10 @@ def _build_data(ds, task):
     for i in range(n):
         X.iloc[i, 0] = pd.Series(np.arange(4, dtype=float) + ds["xs"][i])
     data = X.copy()
-    data["target"] = [float(v) for v in ds["ys"]] if task == "tsr" else [int(v) for v in ds["ys"]]
+    if ds.get("yscale"):                             # kind 'floatcsv': fractional true values too
+        data["target"] = [_fl(v, ds["yscale"]) for v in ds["ys"]]
+    else:
+        data["target"] = [float(v) for v in ds["ys"]] if task == "tsr" else [int(v) for v in ds["ys"]]
     if ds.get("labels") is not None:
         data.index = ["train" if b else "test" for b in ds["labels"]]
     return data
@@ -425,7 +452,7 @@ def _read_csv(p):
     ci, ct, cp = head.index("index"), head.index("y_true"), head.index("y_pred")
     body = rows[1:]
     return ([_num(r[ci]) for r in body], [_num(r[ct]) for r in body], [_num(r[cp]) for r in body],
-            [r[cp] for r in body])
+            [[r[ct] for r in body], [r[cp] for r in body]])
 
 
 def _observe_hdd(path, results, before):
@@ -486,9 +513,11 @@ def _observe_loaded(results, n_folds, float_raw=False):
             try:
                 recs = []
                 for p in results.load_predictions(f, part):
-                    yp = [repr(float(v)) for v in p.y_pred] if float_raw else [_num(v) for v in p.y_pred]
+                    # float_raw: the exact doubles (hex), no canonicalisation, no tolerance
+                    yp = [float(v).hex() for v in p.y_pred] if float_raw else [_num(v) for v in p.y_pred]
+                    yt = [float(v).hex() for v in p.y_true] if float_raw else [_num(v) for v in p.y_true]
                     recs.append([int(p.strategy_name[1:]), int(p.dataset_name[1:]),
-                                 [_num(v) for v in p.index], [_num(v) for v in p.y_true], yp])
+                                 [_num(v) for v in p.index], yt, yp])
                 out.append([f, it, sorted(recs)])
             except (FileNotFoundError, KeyError):
                 out.append([f, it, None])
@@ -817,23 +846,43 @@ def oracle(case, out):
 
 
 def _oracle_float(case, out):
-    """kind 'floatcsv': y_pred = integer / scale as a float; read-back must equal what was stored
-    (the float the estimator predicted), to the last bit."""
-    reg = True
-    exp = _expected(case, out["folds"])
-    sc = float(case["scale"])
+    """kind 'floatcsv': y_pred = v / divisor * 2**power as a double, y_true likewise; (a) the text
+    to_csv stored identifies exactly the double that was handed to save_predictions, (b) the record
+    read back equals what was stored, to the last bit (hex comparison, no tolerance)."""
+    sc = case["scale"]
     o = out["runs"][0]
     if o["status"] != "done":
         return "float-run-did-not-complete: %s" % o["status"]
+    d = case["datasets"][0]
+    ysc = d.get("yscale")
+    tf = [_fl(y, ysc) if ysc else float(y) for y in d["ys"]]          # the true values handed over
+    s, p = case["strategies"][0]
+    exp = {}
+    for fo, (tr, te) in enumerate(out["folds"][0]):
+        st = _dbl_fit(p, [d["xs"][i] for i in tr], [int(tf[i]) for i in tr])   # the double's fit
+        for it, idx in ((0, tr), (1, te)):
+            exp[(fo, it)] = ([tf[i].hex() for i in idx],
+                             [_fl(_dbl_pred(True, p, st, d["xs"][i]), sc).hex() for i in idx])
+    for key, (rt, rp) in sorted(o.get("raw_pred", {}).items()):
+        fo, it = int(key.split("/")[2]), int(key.split("/")[3])
+        for what, texts, want in (("true value", rt, exp[(fo, it)][0]), ("prediction", rp, exp[(fo, it)][1])):
+            got = [float(t).hex() for t in texts]
+            if got != want:
+                bad = [(t, w) for t, g, w in zip(texts, got, want) if g != w]
+                return "stored-text-does-not-identify-the-stored-float: %s %s stored as %r" % (
+                    what, float.fromhex(bad[0][1]).__repr__(), bad[0][0])
     for fo, it, recs in o["loaded"]:
         if recs is None:
             return "read-back-fails-after-complete-run: fold %d" % fo
-        for s, d, idx, yt, yp in recs:
-            want = [repr(float(v) / sc) for v in exp[(s, d, fo, it)][2]]
-            if yp != want:
-                bad = [(a, b) for a, b in zip(yp, want) if a != b]
-                return "read-back-not-equal-to-stored: float prediction %s read back as %s (%d of %d values)" % (
-                    bad[0][1], bad[0][0], len(bad), len(want))
+        if len(recs) != 1:
+            return "read-back-not-one-record: fold %d part %s" % (fo, ITEMS[it])
+        _, _, idx, yt, yp = recs[0]
+        for what, got, want in (("true value", yt, exp[(fo, it)][0]), ("prediction", yp, exp[(fo, it)][1])):
+            if got != want:
+                bad = [(a, b) for a, b in zip(got, want) if a != b]
+                return ("read-back-not-equal-to-stored: float %s %r read back as %r (%d of %d values "
+                        "of fold %d part %s)" % (what, float.fromhex(bad[0][1]), float.fromhex(bad[0][0]),
+                                                len(bad), len(want), fo, ITEMS[it]))
     return None
 
 
